@@ -20,7 +20,8 @@ DecoderOk == \A pk \in Keys : Decode(Reduce(pk)) = pk
 Ws == {NoneV, IntV(5)}
 GRefs == {NoneV, Ref("G", K1), Ref("G", K2)}
 
-I1s == {[id |-> 1, w |-> w, g |-> g, tags |-> tg] : w \in (IF Thorough THEN Ws ELSE {IntV(5)}), g \in GRefs, tg \in SUBSET {K1, K2}}
+I1s == {[id |-> 1, w |-> w, g |-> g, tags |-> tg] : w \in (IF Thorough THEN Ws ELSE {IntV(5)}), g \in GRefs,
+                                                    tg \in (IF Thorough THEN SUBSET {K1, K2} ELSE {{}, {K1}, {K1, K2}})}
 I2s == {{}, {[id |-> 2, w |-> IntV(6), g |-> Ref("G", K1), tags |-> {K1}]}}
        \cup (IF Thorough THEN {{[id |-> 2, w |-> NoneV, g |-> NoneV, tags |-> {K2}]}} ELSE {})
 States == {[gs |-> {[pk |-> K1, v |-> v1], [pk |-> K2, v |-> IntV(2)]}, is |-> {i1} \cup i2] :
